@@ -25,7 +25,7 @@ fn kind_of(a: &ArenaSpec, t: &Target) -> String {
 			let unit = m.iter().any(|x| matches!(x, MemberSpec::Unit(_)));
 			format!("{}{}{}", k.name(), if nested { "+nested" } else { "" }, if unit { "+unit" } else { "" })
 		}
-		Target::PoisColl(_) => "pois(boxed)".into(),
+		Target::PoisColl(k, _) => if *k == CollKind::Retry { "pois(retry)".into() } else { "pois(boxed)".into() },
 	}
 }
 
